@@ -26,14 +26,16 @@ def _writers(case):
     return ws
 
 
-def compile_layout(case, flavor="tt"):
+def compile_layout(case, flavor="tt", writer_objs=None):
+    """`writer_objs`: already initialised writer instances to use instead of building the list the case describes
+    (a caller may hand the same instances to several compiles)."""
     import ufo2ft
 
     font = absfont.build_font(case["ufo"], case.get("lib", "ufoLib2"))
     fn = ufo2ft.compileTTF if flavor == "tt" else ufo2ft.compileOTF
     kw = dict(case.get("kwargs") or {})
     kw.setdefault("useProductionNames", False)
-    ws = _writers(case)
+    ws = writer_objs if writer_objs is not None else _writers(case)
     if ws is not None:
         kw["featureWriters"] = ws
     dbg = io.StringIO()
@@ -73,7 +75,7 @@ def kern_record(case, f2, tid):
 
 import re
 
-_LIGNUM = re.compile(r".*?(\d+)$")
+_LIGNUM = re.compile(r"([0-9]+)$")
 ABVM_SCRIPTS = None
 
 
@@ -81,11 +83,10 @@ def parse_anchor(name):
     """independent lexical parse of an anchor name -> (isMark, key, number)"""
     number = 0
     key = name
-    m = _LIGNUM.match(name)
+    m = _LIGNUM.search(name)
     if m:
         num = m.group(1)
-        k = name[: -len(num)] if name.endswith(num) else name
-        k = name.rstrip(num)
+        k = name[: -len(num)]
         if k.endswith("_"):
             key = k[:-1]
             number = int(num)
